@@ -5,7 +5,8 @@ Property theorems only. The model is lean/Paroxy/Model/Cleanup.lean: the text pa
 structural functions (R2), the token loop of `full_cleaning` taking the TOKEN LIST as input, and
 `suppress_main_guard` taking the parser's answer (line ranges of the top-level `if`s) as input. It mirrors
 /repo after the repairs e959b88 (F08), ff0b849 (F18), decc026 (F21), 2488bc4 (F19), 466f14f (F22+F23),
-55c4b14 (F33), 9ee7189 (F20), 4b0a4d7 (F36), 643e8d6 (F37). No finding of C13 is open.
+55c4b14 (F33), 9ee7189 (F20), 4b0a4d7 (F36), 643e8d6 (F37),
+and the three repairs F42 (injection on the last line), F43 (guard recognised by its test), F44 (\\N{…} in f-strings). No finding of C13 is open.
 
 PROVED here, for every text and every token list (not only those CPython's tokenizer can produce):
   * no line of the result is empty or blank                                   (C13_no_blank_line)
@@ -45,7 +46,7 @@ theorem C13_no_blank_line (ts : List Token) : NoBlankLine (postprocess ts) :=
   finish_noBlankLine (loopText ts)
 
 /-- The same for `full_cleaning` itself, whatever the tokenizer answers (it may raise). -/
-theorem C13_no_blank_line_full {ε : Type} (parse : Text → Option (List (Nat × Nat)))
+theorem C13_no_blank_line_full {ε : Type} (parse : Text → Option (List IfStmt))
     (tokenize : Text → Except ε (List Token)) (src out : Text)
     (h : fullCleaning parse tokenize src = .ok out) : NoBlankLine out := by
   unfold fullCleaning at h
@@ -179,7 +180,7 @@ example : postprocess docstringThenComment = "x".toList := by decide
 /-- **C13 (the loop never raises)** — since 4b0a4d7 the look-ahead is total: `full_cleaning` fails only
 when the tokenizer does. (This restates the shape of `fullCleaning`; kept as a reminder that the former
 IndexError on a last STRING token is gone.) -/
-theorem C13_cleaning_total {ε : Type} (parse : Text → Option (List (Nat × Nat)))
+theorem C13_cleaning_total {ε : Type} (parse : Text → Option (List IfStmt))
     (tokenize : Text → Except ε (List Token)) (src : Text) (ts : List Token)
     (h : tokenize (preprocess parse src) = .ok ts) :
     fullCleaning parse tokenize src = .ok (postprocess ts) := by
@@ -195,6 +196,8 @@ theorem C13_fstring_braces (ts : List Token) (i : Nat) (h : i < ts.length)
   simp [hk]
 
 example : doubleBraces "{a}".toList = "{{a}}".toList := by decide
+/-- the braces of a named escape are left alone (finding 44, `f"\N{DIGIT ONE}"`) -/
+example : doubleBraces "{\\N{DIGIT ONE}}x}".toList = "{{\\N{DIGIT ONE}}}x}}".toList := by decide
 
 /-! ## Hints and the first lines -/
 
@@ -237,13 +240,15 @@ example : suppressFirstComments "# x # paroxython: foo\ny".toList = "# x # parox
   decide
 example : isHintLine "# x # paroxython: foo".toList = true := by decide
 
-/-! ## The main guard (finding F20, repaired by 9ee7189) -/
+/-! ## The main guard (findings F20 and F43, repaired by 9ee7189 and the structural recognition) -/
 
-/-- **C13 (main guard)** — FULL since repair 9ee7189. The parser being an oracle that reports the
-line ranges of the top-level `if` statements (`RangesOk`: in bounds, one after the other), the pass
-removes exactly the lines of the `if` blocks whose first line is the `__main__` guard and keeps every
-other line, in order (`keepOutsideGuards`): in particular what FOLLOWS a guarded block survives. -/
-theorem C13_main_guard (t : Text) (ifs : List (Nat × Nat)) (hok : RangesOk 0 (splitNl t).length ifs) :
+/-- **C13 (main guard)** — FULL. The parser being an oracle that reports the top-level `if` statements
+with their line ranges (`RangesOk`: in bounds, one after the other) and whether their TEST is
+`__name__ == '__main__'` — however it is spelled: tabs, several spaces, a backslash continuation,
+parentheses, any quotes — the pass removes exactly the lines of the guarded `if` statements and keeps
+every other line, in order (`keepOutsideGuards`): what FOLLOWS a guarded block survives, and a guard
+is removed at the FIRST cleaning whatever its layout. -/
+theorem C13_main_guard (t : Text) (ifs : List IfStmt) (hok : RangesOk 0 (splitNl t).length ifs) :
     suppressMainGuard (some ifs) t = joinNl (keepOutsideGuards 0 (splitNl t) ifs) := by
   have := dropGuards_reverse ifs 0 (splitNl t) [] rfl hok
   simp only [List.nil_append] at this
@@ -252,18 +257,31 @@ theorem C13_main_guard (t : Text) (ifs : List (Nat × Nat)) (hok : RangesOk 0 (s
 /-- A source that the parser rejects is left unchanged (restates the model: an `example`). -/
 example (t : Text) : suppressMainGuard none t = t := rfl
 
-/-- the former counter-example: the code after the guarded block survives -/
-example : suppressMainGuard (some [(1, 2)]) "if __name__ == \"__main__\":\n    main()\nx = 2\n".toList =
+/-- the code after the guarded block survives (finding 20's shape) -/
+example : suppressMainGuard (some [⟨1, 2, true⟩]) "if __name__ == \"__main__\":\n    main()\nx = 2\n".toList =
     "x = 2\n".toList := by decide
-example : RangesOk 0 (splitNl "if __name__ == \"__main__\":\n    main()\nx = 2\n".toList).length [(1, 2)] := by
-  have : (splitNl "if __name__ == \"__main__\":\n    main()\nx = 2\n".toList).length = 4 := by decide
-  rw [this]
-  exact ⟨by omega, by omega, by omega, trivial⟩
+/-- a guard written with a tab and a backslash continuation goes at once (finding 43's shape) -/
+example : suppressMainGuard (some [⟨1, 3, true⟩]) "if\t__name__ == \\\n  \"__main__\":\n    main()\nx = 2".toList =
+    "x = 2".toList := by decide
 set_option maxRecDepth 4000 in
 /-- an ordinary `if` is kept; a guard with an `else:` branch goes as a whole; two guards -/
-example : suppressMainGuard (some [(1, 2), (4, 7), (9, 9)])
+example : suppressMainGuard (some [⟨1, 2, false⟩, ⟨4, 7, true⟩, ⟨9, 9, true⟩])
     "if x:\n    y = 1\nz = 1\nif __name__ == '__main__':\n    a()\nelse:\n    b()\n# paroxython: foo\nif __name__==\"__main__\": main()\nw = 1".toList =
     "if x:\n    y = 1\nz = 1\n# paroxython: foo\nw = 1".toList := by decide
+
+/-! ## `sys.path` injections (finding F42) -/
+
+/-- **C13 (injection lines)** — every line of the text that is an injection
+(`__import__("sys").path[0:0] = …`) is removed, the LAST line of a text without final newline
+included; the other lines are kept in order. (Before the repair the last line was kept — and so
+was an injection followed only by the `__main__` guard, since removing the guard leaves no newline.) -/
+theorem C13_injections (t : Text) :
+    (∀ l ∈ splitNl (suppressSysPath t), isInjection l = false) ∧
+    (splitNl (suppressSysPath t)).filter (fun l => !l.isEmpty) =
+      ((splitNl t).filter fun l => !isInjection l).filter (fun l => !l.isEmpty) :=
+  injections_spec t
+
+example : suppressSysPath "x = 1\n__import__(\"sys\").path[0:0] = [\"a\"]".toList = "x = 1\n".toList := by decide
 
 /-! ## Explicit line joining (finding F33, repaired by 55c4b14) -/
 
